@@ -15,6 +15,7 @@ import re
 from ..model import AnalysisError, unparse
 from ..report import RuleResult
 from ..roles import param
+from ._c16_seq import paired_offset
 from ._c16_flow import element_vars, enclosing, iterates, prepared, reachable, resolve_call, static_value
 
 _SHIFTED = "shifted_cells__"  # stands for `<input>.cells + <offset>` inside an offset source (a local in the pinned tree)
@@ -151,17 +152,17 @@ def _cell_offset_in(ctx, res, fn, recv) -> int:
             for a, b in (ops, ops[::-1]):
                 owner = _cells_owner(lc.expand(a))
                 if owner is not None:
-                    sites.append((owner, b, lc.text(n)))
+                    sites.append((owner, b, lc.text(n), n))
                     break
         elif isinstance(n, ast.AugAssign) and isinstance(n.op, ast.Add) and isinstance(n.target, ast.Name):
             for d in lc.defs.get(n.target.id, []):
                 owner = _cells_owner(lc.expand(d))
                 if owner is not None:
-                    sites.append((owner, n.value, None))
+                    sites.append((owner, n.value, None, n))
                     shifted_names.add(n.target.id)  # `t = x.cells.copy(); t += offset`: t is the shifted cells
     if not sites:
         return 0
-    shifted = {t for _, _, t in sites if t}
+    shifted = {t for _, _, t, _ in sites if t}
 
     class Fold(ast.NodeTransformer):
         def visit_BinOp(self, b):
@@ -180,10 +181,28 @@ def _cell_offset_in(ctx, res, fn, recv) -> int:
         return root == _SHIFTED or root in shifted_names or ((root in lc.defs or root in lc.augs or root in lc.opaque) and root not in lc.params)
 
     done = set()
-    for owner, off, _t in sites:
+    explicit = fn.params[1:] if fn.kind in ("method", "classmethod") else fn.params
+    for owner, off, _t, site in sites:
         ent = unparse(owner)
         followed: set = set()
         queue = [(off, True, True)]
+        # vectorised spelling: the offset is an element of a sequence paired with the inputs (zip / enumerate under a comprehension
+        # or a for loop) — the pairing must give input k the sum of one per-input quantity over the inputs BEFORE k
+        binder = _binder(node, site, off)
+        paired = paired_offset(lc, explicit, binder[0], binder[1], owner, off) if binder is not None else None
+        if paired is not None:
+            aligned, quantities = paired
+            res.inst("CellMerger.create_object: the offset paired with each input accumulates over the inputs before it", nontrivial=True, ok=aligned)
+            if not aligned:
+                res.find("CellMerger", "create_object", "cell offset of an input is not the accumulated count of the inputs before it",
+                         f"{fn.module.relpath}:{getattr(site, 'lineno', fn.node.lineno)}",
+                         "the sequence of offsets is not aligned with the inputs (offset k must be the sum of the counts of inputs 0..k-1: an exclusive "
+                         "prefix sum drops the LAST count and starts with 0): every input after the first is shifted by the counts of the wrong inputs")
+            # the per-input quantity that is accumulated is judged like the update of a running offset
+            queue = []
+            for qexpr, var in quantities:
+                ent = var
+                queue.append((qexpr, True, False))
         while queue:
             s, additive, initial = queue.pop(0)
             sx = Fold().visit(lc.expand(s))
@@ -214,6 +233,10 @@ def _cell_offset_in(ctx, res, fn, recv) -> int:
                 root = re.match(r"(?:len\()?([A-Za-z_]\w*)", bad[0])
                 rooted_at_input = bad[0].startswith(ent) or bad[0].startswith(f"len({ent}")
                 shown = "<local>" if (_bare(bad[0]) or (root and is_local(root.group(1)) and not rooted_at_input)) else _role_text(bad[0], {ent: "<input>"})
+                if paired is not None and paired[0] and bad[0] == f"{ent}.cells":
+                    # accumulating max(cells) + 1 of every input IS the pinned loop (the maximum of the shifted cells is the running sum of
+                    # these): the same defect under the same key
+                    shown = "<local>"
                 res.find("CellMerger", "create_object", f"cell offset derives from {shown}", where,
                          f"the offset added to each input's cells comes from `{unparse(s)[:50]}` (a cell-value source) instead of the input's vertex "
                          "count: an input with a vertex above its highest referenced one shifts every following input's cells onto wrong vertices")
@@ -221,7 +244,64 @@ def _cell_offset_in(ctx, res, fn, recv) -> int:
                 res.find("CellMerger", "create_object", "cell offset has a non-additive update", where,
                          f"the offset added to each input's cells is updated by `{unparse(s)[:50]}` with an operator other than +: it is not the "
                          "accumulated vertex count of the preceding inputs")
+        # loop spelling: within one pass of the loop the offset is applied to the input's cells BEFORE it is advanced by that input
+        if paired is None and followed:
+            loop = next((x for x, _ in reversed(enclosing(node, _stmt_of(node, site))) if isinstance(x, (ast.For, ast.AsyncFor, ast.While))), None)
+            if loop is not None:
+                order = _stmts_in_order(loop.body)
+                here = _stmt_of(node, site)
+                pos = next((i for i, st in enumerate(order) if st is here), None)
+                early = [st for i, st in enumerate(order) if pos is not None and i < pos and isinstance(st, (ast.Assign, ast.AnnAssign, ast.AugAssign))
+                         and any(isinstance(t, ast.Name) and t.id in followed for t in (st.targets if isinstance(st, ast.Assign) else [st.target]))]
+                res.inst("CellMerger.create_object: the offset is applied to an input's cells before it is advanced by that input", ok=not early)
+                if early:
+                    res.find("CellMerger", "create_object", "cell offset is advanced before it is applied to the same input's cells",
+                             f"{fn.module.relpath}:{early[0].lineno}",
+                             "inside the loop over the inputs the running offset is updated first and added to the cells afterwards: each input is shifted by "
+                             "its own count as well (offset k must be the sum over the inputs before k)")
     return len(sites)
+
+
+def _stmts_in_order(stmts) -> list:
+    """Statements of a block in document order, nested blocks included."""
+    out = []
+    for st in stmts:
+        out.append(st)
+        for fld in ("body", "orelse", "finalbody"):
+            blk = getattr(st, fld, None)
+            if isinstance(blk, list) and blk and isinstance(blk[0], ast.stmt):
+                out += _stmts_in_order(blk)
+        for h in getattr(st, "handlers", []) or []:
+            out += _stmts_in_order(h.body)
+    return out
+
+
+def _stmt_of(fn_node, x):
+    """The innermost statement holding the node."""
+    best = None
+    for st in _stmts_in_order(fn_node.body):
+        if st is x or any(y is x for y in ast.walk(st)):
+            best = st
+    return best if best is not None else x
+
+
+def _binder(fn_node, site, off):
+    """(iterable, target) of the innermost comprehension / for loop around the site that binds a name of the offset expression
+    together with something else (`for x, o in zip(..)`), else None."""
+    names = {x.id for x in ast.walk(off) if isinstance(x, ast.Name)}
+    best = None
+    for n in ast.walk(fn_node):
+        cands = []
+        if isinstance(n, (ast.ListComp, ast.SetComp, ast.GeneratorExp)) and len(n.generators) == 1 and not n.generators[0].ifs:
+            cands.append((n.generators[0].iter, n.generators[0].target, n))
+        elif isinstance(n, ast.For):
+            cands.append((n.iter, n.target, n))
+        for it, tg, holder in cands:
+            if isinstance(tg, (ast.Tuple, ast.List)) and names & {x.id for x in ast.walk(tg) if isinstance(x, ast.Name)} and any(y is site for y in ast.walk(holder)):
+                size = sum(1 for _ in ast.walk(holder))
+                if best is None or size < best[0]:
+                    best = (size, it, tg)
+    return (best[1], best[2]) if best else None
 
 
 # ---------------------------------------------------------------------- BaseMerger.merge_data
@@ -366,6 +446,30 @@ def _data_offsets(ctx, res):
             res.find("BaseMerger", "merge_data", f"{k} offset is not advanced exactly once per input", f"{md.module.relpath}:{n.lineno}",
                      f"the {k} offset must advance by {ent_txt}.{want[k]} once for every input (inside a loop over the data, or under a condition "
                      "on anything but the count itself, it advances per data or not at all): the next input's values land on the wrong rows")
+        # ... and only after this input's data took their place: inside one pass of the loop over the inputs no read of the running
+        # offsets follows the update (an offset advanced first places the input's own data past its own rows)
+        loop = next((x for x in reversed(around) if any(x is lp for lp in evars.values())), None)
+        if once and loop is not None:
+            upd_stmts = {id(u) for u, _t, _k in updates}
+            order = _stmts_in_order(loop.body)
+            pos = next((i for i, st in enumerate(order) if st is n), None)
+
+            def reads(st):
+                if id(st) in upd_stmts or isinstance(st, (ast.For, ast.AsyncFor, ast.While, ast.If, ast.With, ast.Try)):
+                    return False  # compound statements are judged through the simple statements they hold
+                for x in ast.walk(st):
+                    if isinstance(x, ast.Subscript) and isinstance(x.ctx, ast.Load) and lc.text(x.value) in tables:
+                        return True
+                    if isinstance(x, ast.Name) and isinstance(x.ctx, ast.Load) and x.id in slot_key:
+                        return True
+                return False
+
+            late = [st for i, st in enumerate(order) if pos is not None and i > pos and reads(st)]
+            res.inst(f"merge_data: offset[{k!r}] advances after the input's data are placed", ok=not late)
+            if late:
+                res.find("BaseMerger", "merge_data", f"{k} offset is advanced before the input's own data are placed", f"{md.module.relpath}:{n.lineno}",
+                         f"within one pass of the loop over the inputs the {k} offset is read (line {late[0].lineno}) after it was advanced by this "
+                         "input's count: the input's own values are written past its rows")
     for k in want:
         if k not in seen_keys and not any(f.member == "merge_data" for f in res.findings):
             res.find("BaseMerger", "merge_data", f"the {k} offset is never advanced", md.where, f"every input's {k} data is written at offset 0")
